@@ -259,19 +259,23 @@ example : ∃ s', stmt {} demo (.fan (.name 2) [.hello, .delete (.obj 3)]) = .ok
 example : ∃ s', stmt {} demo (.fan (.name 2) [.setName .self 4]) = .ok s' ∧
     visits (s'.log.drop demo.log.length) = [1, 3] ∧ bearers s'.log 4 = [1, 3] := ⟨_, rfl, by decide, by decide⟩
 
-/-- When the handler destroys nothing (in particular for the `targetname` command, and for any
-    thread handler without a `remove`), the command is executed on *all* bearers, each exactly
-    once, in naming order. -/
-theorem C15_fanout_all_when_no_delete {cfg : Cfg} {s s' : State} (h : Reachable cfg s) {n : Name} {st : Stmt}
-    (hf : (∃ m, st = .fanName (.name n) m) ∨ (∃ hd, st = .fan (.name n) hd ∧ ∀ a ∈ hd, a.noDelete = true))
+/-- When no handler destroys an object other than its own `self` — the `targetname` command,
+    `remove` applied to the group, any thread handler whose only deletions are `self remove` — the
+    command is executed on *all* bearers, each exactly once, in naming order. -/
+theorem C15_fanout_all_when_only_self_deleted {cfg : Cfg} {s s' : State} (h : Reachable cfg s) {n : Name}
+    {st : Stmt}
+    (hf : (∃ m, st = .fanName (.name n) m) ∨ st = .fanDelete (.name n) ∨
+      (∃ hd, st = .fan (.name n) hd ∧ ∀ a ∈ hd, a.selfDeleteOnly = true))
     (hok : stmt cfg s st = .ok s') :
     ∃ seg, s'.log = s.log ++ seg ∧ visits seg = bearers s.log n := by
   have i := h.good.inv
-  obtain ⟨run, hrun, hst⟩ : ∃ run : State → ObjId → Res, (∀ s o s', run s o = .ok s' → Keep s s') ∧
+  obtain ⟨run, hrun, hst⟩ : ∃ run : State → ObjId → Res, (∀ s o s', run s o = .ok s' → KeepBut o s s') ∧
       stmt cfg s st = fanOut cfg s (.name n) run := by
-    rcases hf with ⟨m, rfl⟩ | ⟨hd, rfl, hnd⟩
-    · exact ⟨fun st o => .ok (setTargetName st o m), fun s o s' e => by cases e; exact setTargetName_keep _ _ _, rfl⟩
-    · exact ⟨fun st o => acts cfg (some o) hd st, fun s o s' e => acts_keep hd hnd e, rfl⟩
+    rcases hf with ⟨m, rfl⟩ | rfl | ⟨hd, rfl, hnd⟩
+    · exact ⟨fun st o => .ok (setTargetName st o m),
+        fun s o s' e => by cases e; exact (setTargetName_keep _ _ _).keepBut o, rfl⟩
+    · exact ⟨fun st o => .ok (destroy st o), fun s o s' e => by cases e; exact destroy_keepBut _ _, rfl⟩
+    · exact ⟨fun st o => acts cfg (some o) hd st, fun s o s' e => acts_keepBut hd hnd e, rfl⟩
   rw [hst] at hok
   unfold fanOut at hok
   simp only [evalSrc] at hok
@@ -294,14 +298,19 @@ theorem C15_fanout_all_when_no_delete {cfg : Cfg} {s s' : State} (h : Reachable 
       obtain ⟨x, hx, e⟩ := List.mem_map.mp ho
       cases e
       exact i.alive_lt o (i.bearer n o hx).1
-    obtain ⟨⟨seg, e, v⟩, -⟩ := fanLoop_all hrun _ hok hlt
+    have hfm : ((bearers s.log n).map some).filterMap id = bearers s.log n := by
+      rw [List.filterMap_map]; simp only [Function.comp_def, id, List.filterMap_some]
+    obtain ⟨⟨seg, e, v⟩, -⟩ := fanLoop_selfonly hrun _ (by rw [hfm]; exact i.nodup n) hok hlt
     refine ⟨seg, e, ?_⟩
-    rw [v, List.filterMap_map]
-    simp only [Function.comp_def, id, List.filterMap_some]
+    rw [v, hfm]
     exact List.filter_eq_self.mpr (fun o ho => (i.bearer n o ho).1)
 
 example : ∃ s', stmt {} demo (.fanName (.name 2) 3) = .ok s' ∧
     visits (s'.log.drop demo.log.length) = [1, 3] ∧ bearers s'.log 3 = [2, 1, 3] := ⟨_, rfl, by decide, by decide⟩
+/-- `$n1 remove`: both members are reached although the table's list shrinks under the loop -/
+example : ∃ s', stmt {} demo (.fanDelete (.name 2)) = .ok s' ∧
+    visits (s'.log.drop demo.log.length) = [1, 3] ∧ bearers s'.log 2 = [] ∧ s'.alive 1 = false ∧ s'.alive 3 = false :=
+  ⟨_, rfl, by decide, by decide, by decide, by decide⟩
 
 /-- **Field assignment, with the repair.**  `$name.fld = x` assigns the field on every bearer,
     each exactly once, in naming order, and on nobody else. -/
